@@ -408,3 +408,239 @@ Proof.
   assert (byte_len s <= 32) by (apply byte_len_bound; cbn; lia).
   pose proof (canon_len_le r). pose proof (canon_len_le s). lia.
 Qed.
+
+(* ------------------------------------------------------------------ Part D: the signed transaction *)
+Lemma le_bytes_length n v : length (le_bytes n v) = n.
+Proof. revert v. induction n; intros; cbn [le_bytes length]; auto. Qed.
+Lemma pk_len p : len (pk_bytes p) = 33.
+Proof. unfold pk_bytes. rewrite len_cons, len_rev, le_bytes_len. reflexivity. Qed.
+
+Definition sl_with (der : N -> N -> list N) (i : rin) : N := len (sig_bytes_with der i).
+Definition sl_of := sl_with der_serialize.
+Definition real_trip_with (der : N -> N -> list N) (i : rin) : trip :=
+  let k := rkind_of (ri_kind i) in
+  (fst (rk_sizes k (sl_with der i) 33), snd (rk_sizes k (sl_with der i) 33), rk_wit k).
+Definition real_trip := real_trip_with der_serialize.
+
+Lemma sl_bounds i : sig_in_range i = true -> 9 <= sl_of i <= 72.
+Proof.
+  unfold sig_in_range, sl_of, sl_with, sig_bytes_with. intros H. rewrite len_app.
+  change (len [sighash_all]) with 1.
+  pose proof (der_len (Z.to_N (ri_r i)) (Z.to_N (ri_s i))) as D. lia.
+Qed.
+
+(* generic in the DER function: only the length window of the signature is used *)
+Lemma sign_input_with_spec der i ti :
+  sign_input_with der i = Some ti -> 2 <= sl_with der i <= 75 ->
+  in_trip ti = real_trip_with der i /\ hash32 ti.
+Proof.
+  unfold sign_input_with. destruct (sig_in_range i && ri_curve_ok i) eqn:E; cbn [negb]; [|discriminate].
+  intros H B. unfold sl_with in B. set (sg := sig_bytes_with der i) in *.
+  pose proof (pk_len (ri_pk i)) as Lpk. set (pk := pk_bytes (ri_pk i)) in *.
+  assert (H32 : forall sc w, hash32 (real_txin i sc w)) by (intros; apply le_bytes_length).
+  unfold real_trip_with, sl_with. fold sg.
+  destruct (ri_kind i) as [[]|[] redeem]; cbn [rkind_of rk_sizes rk_wit fst snd].
+  - injection H as <-. split; [|apply H32]. unfold in_trip, real_txin. rewrite txin_size_mk, wit_size_mk.
+    cbn [mk_in ti_witness is_nil negb map]. unfold sumN. cbn [fold_right]. rewrite Lpk.
+    change (len [sg; pk]) with 2. change (len (@nil N)) with 0. f_equal. f_equal.
+    change (cs_size 2) with 1. lia.
+  - destruct (sig_script2 sg pk B Lpk) as (s & Hs & Ls). rewrite Hs in H. injection H as <-.
+    split; [|apply H32]. unfold in_trip, real_txin. rewrite txin_size_mk, Ls. reflexivity.
+  - injection H as <-. split; [|apply H32]. unfold in_trip, real_txin. rewrite txin_size_mk, wit_size_mk.
+    cbn [mk_in ti_witness is_nil negb map]. unfold sumN. cbn [fold_right]. rewrite Lpk.
+    change (len [sg; pk; redeem]) with 3. change (len (@nil N)) with 0. f_equal. f_equal.
+    change (cs_size 3) with 1. lia.
+  - destruct (sig_script2 sg pk B Lpk) as (s & Hs & Ls). destruct redeem as [|b t].
+    + rewrite Hs in H. injection H as <-. split; [|apply H32]. unfold in_trip, real_txin.
+      rewrite txin_size_mk, Ls. cbn [redeem_push]. rewrite N.add_0_r. reflexivity.
+    + rewrite sig_script3, Hs in H.
+      assert (push_len (len sg) <= 78) by (pose proof (push_len_bound (len sg)); lia).
+      change (push_len 33) with 34 in Ls.
+      rewrite sb_add_data_short in H by lia. destruct (520 <? len (b :: t)); [discriminate|].
+      set (adr := add_data_raw (b :: t)) in H.
+      assert (Ladr : len adr = canonical_data_size (b :: t)) by apply add_data_raw_len. clearbody adr.
+      injection H as <-. split; [|apply H32]. unfold in_trip, real_txin.
+      rewrite txin_size_mk, len_app, Ls, Ladr. reflexivity.
+Qed.
+Lemma sign_input_spec i ti :
+  sign_input i = Some ti -> in_trip ti = real_trip i /\ hash32 ti /\ 9 <= sl_of i <= 72.
+Proof.
+  intros H. assert (R : sig_in_range i = true).
+  { unfold sign_input, sign_input_with in H. destruct (sig_in_range i); [reflexivity|discriminate]. }
+  pose proof (sl_bounds i R) as B. destruct (sign_input_with_spec der_serialize i ti H) as (A1 & A2).
+  - unfold sl_of in B. lia.
+  - auto.
+Qed.
+
+Lemma all_some_spec {A B} (f : A -> option B) l r :
+  all_some (map f l) = Some r -> Forall2 (fun x y => f x = Some y) l r.
+Proof.
+  revert r. induction l as [|a l IH]; intros r H; cbn [map all_some] in H.
+  - injection H as <-. constructor.
+  - destruct (f a) eqn:E; [|discriminate]. destruct (all_some (map f l)); [|discriminate].
+    injection H as <-. constructor; auto.
+Qed.
+Lemma build_with_spec der ins outs T :
+  build_with der ins outs = Some T ->
+  exists l, T = mk_tx l outs /\ Forall2 (fun x y => sign_input_with der x = Some y) ins l.
+Proof.
+  unfold build_with. destruct ins as [|i0 ins']; [discriminate|]. set (ins := i0 :: ins').
+  destruct (all_some (map (sign_input_with der) ins)) as [l|] eqn:E; [|discriminate].
+  intros H. injection H as <-. exists l. split; [reflexivity|]. now apply all_some_spec.
+Qed.
+
+(* ------------------------------------------------------------------ Part E: domination *)
+Lemma cs_size_mono a b : a <= b -> cs_size a <= cs_size b.
+Proof.
+  unfold cs_size. intros.
+  destruct (a <? 253) eqn:?; destruct (a <=? 65535) eqn:?; destruct (a <=? 4294967295) eqn:?;
+  destruct (b <? 253) eqn:?; destruct (b <=? 65535) eqn:?; destruct (b <=? 4294967295) eqn:?; lia.
+Qed.
+Lemma var_len_mono a b : a <= b -> var_len a <= var_len b.
+Proof. intros H. pose proof (cs_size_mono a b H). unfold var_len. lia. Qed.
+Lemma push_len_mono a b : a <= b -> push_len a <= push_len b.
+Proof.
+  unfold push_len. intros.
+  destruct (a =? 0) eqn:?; destruct (a <? 76) eqn:?; destruct (a <=? 255) eqn:?; destruct (a <=? 65535) eqn:?;
+  destruct (b =? 0) eqn:?; destruct (b <? 76) eqn:?; destruct (b <=? 255) eqn:?; destruct (b <=? 65535) eqn:?; lia.
+Qed.
+Lemma push_len_ge n : n + 1 <= push_len n.
+Proof.
+  unfold push_len.
+  destruct (n =? 0) eqn:?; destruct (n <? 76) eqn:?; destruct (n <=? 255) eqn:?; destruct (n <=? 65535) eqn:?; lia.
+Qed.
+Lemma redeem_push_le redeem l :
+  len redeem <= l -> negb ((l =? 1) && (canonical_data_size redeem =? 2)) = true ->
+  redeem_push redeem <= zeros_push_len l.
+Proof.
+  intros Hl Hc. destruct redeem as [|b t]; [cbn [redeem_push]; lia|]. cbn [redeem_push].
+  set (d := b :: t) in *. unfold zeros_push_len.
+  destruct (N.le_gt_cases 2 (len d)) as [G|G].
+  - rewrite cds_ge2 by assumption. destruct (l =? 1) eqn:E; [lia|]. now apply push_len_mono.
+  - pose proof (cds_small d ltac:(lia)) as S. destruct (l =? 1) eqn:E.
+    + cbn [andb] in Hc. destruct (canonical_data_size d =? 2) eqn:E2; [discriminate|]. lia.
+    + assert (1 <= len d) by (unfold d; rewrite len_cons; lia). pose proof (push_len_ge l). lia.
+Qed.
+
+Definition trip_le (a b : trip) : Prop :=
+  t_base a <= t_base b /\ t_wit a <= t_wit b /\ (t_hw a = true -> t_hw b = true).
+
+Lemma covered_trip s i ti :
+  in_covered s (ri_kind i) = true -> sign_input i = Some ti -> trip_le (in_trip ti) (ish_trip s).
+Proof.
+  intros C H. destruct (sign_input_spec i ti H) as (E & _ & B). rewrite E.
+  unfold real_trip, real_trip_with. fold sl_of. set (sl := sl_of i) in *. clearbody sl.
+  unfold in_covered in C.
+  assert (V : var_len sl <= var_len 72) by (apply var_len_mono; lia).
+  assert (P : push_len sl <= push_len 72) by (apply push_len_mono; lia).
+  destruct s as [w|w l], (ri_kind i) as [w'|w' redeem]; try discriminate.
+  - apply eqb_prop in C. subst w'. unfold trip_le, ish_trip, t_base, t_wit, t_hw.
+    destruct w; cbn [rkind_of rk_sizes rk_wit fst snd ish_base ish_witsz ish_wit].
+    + lia.
+    + assert (var_len (push_len sl + push_len 33) <= var_len (push_len 72 + push_len 33))
+        by (apply var_len_mono; lia). lia.
+  - apply andb_prop in C. destruct C as (C & C3). apply andb_prop in C. destruct C as (C1 & C2).
+    apply eqb_prop in C1. subst w'. unfold trip_le, ish_trip, t_base, t_wit, t_hw.
+    destruct w; cbn [rkind_of rk_sizes rk_wit fst snd ish_base ish_witsz ish_wit].
+    + assert (var_len (len redeem) <= var_len l) by (apply var_len_mono; lia). lia.
+    + cbn [orb] in C3. pose proof (redeem_push_le redeem l ltac:(lia) C3).
+      assert (var_len (push_len sl + push_len 33 + redeem_push redeem)
+              <= var_len (push_len 72 + push_len 33 + zeros_push_len l)) by (apply var_len_mono; lia).
+      lia.
+Qed.
+
+Lemma F2_sums ra sa : Forall2 trip_le ra sa ->
+  len ra = len sa /\ sumN (map t_base ra) <= sumN (map t_base sa)
+  /\ sumN (map t_wit ra) <= sumN (map t_wit sa) /\ (existsb t_hw ra = true -> existsb t_hw sa = true).
+Proof.
+  induction 1 as [|a b ra sa (H1 & H2 & H3) _ (I1 & I2 & I3 & I4)].
+  - repeat split; auto; reflexivity.
+  - rewrite !len_cons. cbn [map existsb]. unfold sumN in *. cbn [fold_right]. repeat split; try lia.
+    intros E. apply orb_true_iff in E. apply orb_true_iff. destruct E; auto.
+Qed.
+Lemma perm_sums {A} (f g : A -> N) (p : A -> bool) sa rest ea : Permutation (sa ++ rest) ea ->
+  len sa <= len ea /\ sumN (map f sa) <= sumN (map f ea) /\ sumN (map g sa) <= sumN (map g ea)
+  /\ (existsb p sa = true -> existsb p ea = true).
+Proof.
+  intros P. repeat split.
+  - unfold len. rewrite <- (Permutation_length P), app_length. lia.
+  - rewrite <- (sumN_perm _ _ (Permutation_map f P)), map_app, sumN_app. lia.
+  - rewrite <- (sumN_perm _ _ (Permutation_map g P)), map_app, sumN_app. lia.
+  - intros E. apply existsb_exists in E. destruct E as (x & Hx & Px). apply existsb_exists. exists x.
+    split; [|assumption]. apply (Permutation_in _ P). apply in_or_app. now left.
+Qed.
+Lemma F2_out_sums (ro so : list N) : Forall2 N.le ro so ->
+  len ro = len so /\ sumN (map (fun s => 8 + var_len s) ro) <= sumN (map (fun s => 8 + var_len s) so).
+Proof.
+  induction 1 as [|a b ro so H _ (I1 & I2)]; [split; reflexivity|].
+  rewrite !len_cons. cbn [map]. unfold sumN in *. cbn [fold_right]. pose proof (var_len_mono a b H). lia.
+Qed.
+
+Lemma weight_mono (ra ea : list trip) (ro eo : list N) :
+  len ra <= len ea -> sumN (map t_base ra) <= sumN (map t_base ea) ->
+  sumN (map t_wit ra) <= sumN (map t_wit ea) -> (existsb t_hw ra = true -> existsb t_hw ea = true) ->
+  len ro <= len eo ->
+  sumN (map (fun s => 8 + var_len s) ro) <= sumN (map (fun s => 8 + var_len s) eo) ->
+  z_weight (L_sizes ra ro) <= z_weight (L_sizes ea eo).
+Proof.
+  intros H1 H2 H3 H4 H5 H6. unfold z_weight, z_total, z_base, L_sizes.
+  cbn [z_nin z_nout z_in z_out z_wit z_hw].
+  pose proof (cs_size_mono _ _ H1). pose proof (cs_size_mono _ _ H5).
+  destruct (existsb t_hw ra); destruct (existsb t_hw ea); lia.
+Qed.
+Lemma vsize_of_weight_mono a b : a <= b -> vsize_of_weight a <= vsize_of_weight b.
+Proof. intros. unfold vsize_of_weight. apply N.div_le_mono; lia. Qed.
+
+(* the general domination statement on shapes *)
+Lemma dominated_weight ra ro (ss rest : list trip) ea (os resto : list N) eo :
+  Forall2 trip_le ra ss -> Permutation (ss ++ rest) ea ->
+  Forall2 N.le ro os -> Permutation (os ++ resto) eo ->
+  z_weight (L_sizes ra ro) <= z_weight (L_sizes ea eo).
+Proof.
+  intros F P Fo Po. destruct (F2_sums _ _ F) as (A1 & A2 & A3 & A4).
+  destruct (perm_sums t_base t_wit t_hw _ _ _ P) as (B1 & B2 & B3 & B4).
+  destruct (F2_out_sums _ _ Fo) as (C1 & C2).
+  destruct (perm_sums (fun s => 8 + var_len s) (fun s => s) (fun _ => true) _ _ _ Po) as (D1 & D2 & _ & _).
+  apply weight_mono; try lia. auto.
+Qed.
+
+Lemma Forall2_map_r {A B C} (R : A -> C -> Prop) (f : B -> C) la lb :
+  Forall2 (fun a b => R a (f b)) la lb -> Forall2 R la (map f lb).
+Proof. induction 1; cbn [map]; constructor; auto. Qed.
+Lemma Forall2_map_l {A B C} (R : C -> B -> Prop) (f : A -> C) la lb :
+  Forall2 (fun a b => R (f a) b) la lb -> Forall2 R (map f la) lb.
+Proof. induction 1; cbn [map]; constructor; auto. Qed.
+Lemma Forall2_flip {A B} (R : A -> B -> Prop) la lb : Forall2 R la lb -> Forall2 (fun b a => R a b) lb la.
+Proof. induction 1; constructor; auto. Qed.
+Lemma Forall2_imp {A B} (R S : A -> B -> Prop) la lb :
+  (forall a b, R a b -> S a b) -> Forall2 R la lb -> Forall2 S la lb.
+Proof. intros H. induction 1; constructor; auto. Qed.
+Lemma Forall2_chain {A B C} (R : A -> B -> Prop) (S : B -> C -> Prop) (T : A -> C -> Prop) la lb lc :
+  (forall a b c, R a b -> S b c -> T a c) -> Forall2 R la lb -> Forall2 S lb lc -> Forall2 T la lc.
+Proof.
+  intros H F. revert lc. induction F; intros lc G; inversion G; subst; constructor; eauto.
+Qed.
+
+Theorem estimate_ge_actual ops ins outs T e :
+  estimate ops = VOk e -> build ins outs = Some T ->
+  (exists ss rest, Permutation (ss ++ rest) (shape_ins ops)
+                   /\ Forall2 (fun s i => in_covered s (ri_kind i) = true) ss ins) ->
+  (exists os rest, Permutation (os ++ rest) (shape_outs ops)
+                   /\ Forall2 (fun s o => out_covered s o = true) os outs) ->
+  vsize T <= e.
+Proof.
+  intros He Hb (ss & rest & Pi & Fi) (os & resto & Po & Fo).
+  apply estimate_shapes in He. subst e.
+  destruct (build_with_spec _ _ _ _ Hb) as (l & -> & Fl).
+  assert (H32 : Forall hash32 l).
+  { clear -Fl. induction Fl; constructor; auto. now destruct (sign_input_spec _ _ H) as (_ & ? & _). }
+  rewrite vsize_mk by assumption. unfold z_vsize. apply vsize_of_weight_mono. unfold shape_sizes.
+  apply (dominated_weight _ _ (map ish_trip ss) (map ish_trip rest) _ (map oshape_len os) (map oshape_len resto)).
+  - apply Forall2_map_l, Forall2_map_r. apply Forall2_flip.
+    eapply (Forall2_chain _ _ _ _ _ _ _ Fi Fl). Unshelve.
+    intros s i ti C H. cbv beta. now apply (covered_trip s i ti).
+  - rewrite <- map_app. now apply Permutation_map.
+  - apply Forall2_map_l, Forall2_map_r. apply Forall2_flip. eapply Forall2_imp; [|exact Fo].
+    intros s o C. unfold out_covered in C. unfold out_len. lia.
+  - rewrite <- map_app. now apply Permutation_map.
+Qed.
